@@ -281,11 +281,17 @@ func propC06() *Prop {
 		Jobs: func(tier string) []*sym.Job {
 			var js []*sym.Job
 			add := func(j *sym.Job) { j.RandomModels = 3000; j.LoopBound = 64; j.FeasTimeout = 5 * time.Second; js = append(js, j) }
+			// unwinding bound derived from the code: j strictly increases by at least 1 per iteration
+			// (q >= 1), so the loop of jumpHash(key, n+1) runs at most n+1 times: U = n+3
 			for n := int64(1); n <= tierPick(tier, 4, 8); n++ {
-				add(job(fmt.Sprintf("C06a/jumpHash[all 2^32 hashes,n=%d->%d]", n, n+1), "loadbalancer", "VerifC06Jump", n))
+				j := job(fmt.Sprintf("C06a/jumpHash[all 2^32 hashes,n=%d->%d]", n, n+1), "loadbalancer", "VerifC06Jump", n)
+				add(j)
+				j.LoopBound = int(n) + 3
 			}
 			for n := int64(1); n <= tierPick(tier, 2, 3); n++ {
-				add(job(fmt.Sprintf("C06a/jumpHash[all 2^64 keys,n=%d->%d]", n, n+1), "loadbalancer", "VerifC06Jump64", n))
+				j := job(fmt.Sprintf("C06a/jumpHash[all 2^64 keys,n=%d->%d]", n, n+1), "loadbalancer", "VerifC06Jump64", n)
+				add(j)
+				j.LoopBound = int(n) + 3
 			}
 			maxL := tierPick(tier, 3, 5)
 			for mode := int64(0); mode < 3; mode++ {
